@@ -24,3 +24,20 @@ Theorem C18_foreign_definitions_hidden : forall fl preloads tfile tsrc articles 
   fst (fst (run_driver fl preloads (tfile, tsrc) (articles ++ extra))) = fst (fst (run_driver fl preloads (tfile, tsrc) articles)).
 Proof. exact foreign_definitions_print_nothing. Qed.
 Print Assumptions C18_foreign_definitions_hidden.
+
+(* rows rebased: when every row of the target's steps and of its recorded definitions moves by k — the target analysed
+   after a k-line prefix — every printed line moves by k: same lines, same order, same texts *)
+Theorem C18_rows_rebased : forall fl preloads tfile tsrc articles k,
+  fst (fst (run_driver fl preloads (tfile, shift_src k tsrc) (map (shift_article k tfile) articles)))
+  = map (shift_line k) (fst (fst (run_driver fl preloads (tfile, tsrc) articles))).
+Proof. exact rows_rebased. Qed.
+Print Assumptions C18_rows_rebased.
+
+(* non-vacuity: a target with one error step and one hint, a definition of its own and one recorded from a preload,
+   analysed after a 7-line prefix *)
+Example C18_rows_rebased_example :
+  let src := fun _ : string => [{| st_row := 2%Z; st_out := OErr "boom"; st_infos := [(1%Z, "hint")] |}] in
+  let arts := [("m.rb", 3%Z, "def a"); ("p.rb", 1%Z, "def b")] in
+  fst (fst (run_driver {| fl_define_info := true |} [] ("m.rb", shift_src 7 src) (map (shift_article 7 "m.rb") arts)))
+  = [LInfo "m.rb" 8%Z "hint"; LInfo "m.rb" 10%Z "def a"; LDiag "m.rb" 9%Z "boom"].
+Proof. vm_compute. reflexivity. Qed.
